@@ -277,7 +277,22 @@ func GenWorld(g G, o GenOpts) *World {
 		cs := CommitSpec{Tree: pickTree("ctree"), Parents: parents,
 			Author: ident("A U Thor", date, "+0000"), Committer: ident("C O Mitter", date, "-0700"),
 			Message: fmt.Sprintf("commit %d\n", i)}
-		if o.ExtraHeaders {
+		if o.ExtraHeaders && g.Rare(1, 12, "bigheader") {
+			// a header block well beyond 4 KiB (large signature), followed by
+			// a message that imitates headers
+			lines := g.Int(60, 200, "siglines")
+			var sb strings.Builder
+			sb.WriteString("-----BEGIN PGP SIGNATURE-----\n")
+			for k := 0; k < lines; k++ {
+				sb.WriteString("iQIzBAABCAAdFiEE" + fakeOID(fmt.Sprint("sig", i, k)) + "0123456789abcdef\n")
+			}
+			sb.WriteString("-----END PGP SIGNATURE-----")
+			cs.Extra = append(cs.Extra, Header{"gpgsig", sb.String()})
+			cs.Message = "subject\n\nparent " + fakeOID("bigm1") + "\ntree " + fakeOID("bigm2") + "\n"
+			if len(commits) > 0 && g.Bool("realparentinmsg") {
+				cs.Message = "subject\n\nparent " + commits[g.Pick(len(commits), "msgparent")].ID + "\nlast line"
+			}
+		} else if o.ExtraHeaders {
 			switch g.Pick(8, "extrahdr") {
 			case 0:
 				decoy := "parent " + fakeOID("decoy")
@@ -330,7 +345,17 @@ func GenWorld(g G, o GenOpts) *World {
 		}
 		ts := TagSpec{Object: target.ID, Type: target.Kind, Tag: fmt.Sprintf("t%d", i), Tagger: ident("T Agger", base+int64(i), "+0100"),
 			Message: fmt.Sprintf("tag %d\n", i)}
-		if o.ExtraHeaders {
+		if o.ExtraHeaders && g.Rare(1, 12, "bigtagheader") {
+			lines := g.Int(60, 160, "tagsiglines")
+			var sb strings.Builder
+			sb.WriteString("-----BEGIN PGP SIGNATURE-----\n")
+			for k := 0; k < lines; k++ {
+				sb.WriteString("iQIzBAABCAAdFiEE" + fakeOID(fmt.Sprint("tsig", i, k)) + "0123456789abcdef\n")
+			}
+			sb.WriteString("-----END PGP SIGNATURE-----")
+			ts.Extra = append(ts.Extra, Header{"gpgsig", sb.String()})
+			ts.Message = "object " + fakeOID("bigtm") + "\ntype tree\n\nobject " + fakeOID("bigtm2") + "\nno-space-last-line"
+		} else if o.ExtraHeaders {
 			switch g.Pick(6, "tagextra") {
 			case 0:
 				ts.Message = "object " + fakeOID("tm") + "\ntype tag\n\nobject " + fakeOID("tm2") + "\n"
